@@ -178,6 +178,8 @@ def strategy(profile, quick):
 
     if profile == "cascade":
         base = e2e.case_strategy("cascade", max_ops=5, big=True, small_arena=True, dtypes=("int8", "int8", "uint8"))
+    elif profile == "convs":
+        base = e2e.case_strategy("convs", max_ops=2, big=False, dtypes=("int8", "int8", "uint8", "int16"))
     elif profile == "exact16":
         base = e2e.case_strategy("exact16", max_ops=5, big=False, dtypes=("int16",))
     elif profile == "approx":
@@ -202,6 +204,7 @@ def parts(ctx):
     ps += [Part("cascade%02d" % i, part, ("cascade", i, 8 if q else 250)) for i in range(6)]
     ps += [Part("slices%02d" % i, part, ("slices", i, 16 if q else 500)) for i in range(6)]
     ps += [Part("elementwise%02d" % i, part, ("elementwise", i, 20 if q else 600)) for i in range(4)]
+    ps += [Part("convs%02d" % i, part, ("convs", i, 25 if q else 700)) for i in range(4)]
     ps += [Part("int16-%02d" % i, part, ("exact16", i, 20 if q else 600)) for i in range(4)]
     ps += [Part("approx%02d" % i, part, ("approx", i, 20 if q else 600)) for i in range(4)]
     return ps
